@@ -1,4 +1,4 @@
-// CONFIGS: back back11 backmp11
+// CONFIGS: back back11 backmp11 backmp11_ct
 // family `hist` (C08, C09): two-region submachine under No / Always / Shallow[resume] history; plain and explicit entry with history
 // and non-history entering events; several enter/move/exit cycles (the memory must be the LAST exit's configuration).
 #include "common.hpp"
